@@ -7,6 +7,7 @@ import sys, os, subprocess, json, shutil, time
 sid, prop, wt = sys.argv[1:4]; run = sys.argv[4:] or [prop]
 V = '/verif'; d = os.path.join(V, 'seeded', sid); os.makedirs(d, exist_ok=True)
 def sh(cmd, **kw): return subprocess.run(cmd, shell=True, stdout=subprocess.PIPE, stderr=subprocess.STDOUT, **kw)
+if not os.path.isdir(wt): print('no such worktree', wt); sys.exit(2)
 diff = sh('git -C %s diff -- lib' % wt).stdout.decode()
 if not diff.strip(): print('no diff in', wt); sys.exit(2)
 open(os.path.join(d, 'patch.diff'), 'w').write(diff)
@@ -49,6 +50,6 @@ old = {}
 mp = os.path.join(d, 'meta.json')
 if os.path.exists(mp):
     old = json.load(open(mp)); oc = old.get('checks', {}); oc.update(results); meta['checks'] = oc
-    for k in ('needs_to_manifest', 'description'): 
+    for k in ('needs_to_manifest', 'description', 'strengthened'): 
         if k in old: meta[k] = old[k]
 json.dump(meta, open(mp, 'w'), indent=1)
